@@ -44,10 +44,12 @@ fn contract_addr(w: &World, c: usize) -> Addr {
     }
 }
 fn sender_addr(w: &World, s: usize) -> Addr {
-    // 0..3 users (0 initial owner, 1 proposed owner, 2 stranger, 3 farm/position owner), 4 pool manager, 5 farm manager
+    // 0..3 users (0 initial owner, 1 proposed owner, 2 stranger, 3 farm/position owner), 4 pool manager, 5 farm manager,
+    // 6 the account that deployed the epoch manager and the farm manager on behalf of the owner named in the message
     match s {
         4 => w.pool_manager.clone(),
         5 => w.farm_manager.clone(),
+        6 => w.deployer.clone(),
         x => w.users[x].clone(),
     }
 }
@@ -272,7 +274,7 @@ impl Checker for OwnChecker {
         let snap = w.snapshot();
         let uom = [coin(1, "uom")];
         for (label, run) in privileged(self.contract) {
-            for s in 0..6usize {
+            for s in 0..7usize {
                 for with_funds in [false, true] {
                     w.restore(&snap);
                     let funds: &[Coin] = if with_funds { &uom } else { &[] };
